@@ -9,6 +9,7 @@ f1_0:
   call f7_0
   call f5_0
   lea d_f1_0(%rip),%rax
+  mov wvsv0@GOTPCREL(%rip),%rax
   ret
 .section .data.d_f1_0,"aw",@progbits
 .globl d_f1_0
